@@ -156,7 +156,7 @@ def run(ctx: Ctx) -> None:
     if ctx.quick:
         for noise, n in itertools.product(sv_noises, ns_q):
             add("sv", noise, n, 3, 20)
-        for noise, n in itertools.product(mps_noises, [1, 2, 4]):
+        for noise, n in itertools.product(mps_noises, [1, 3]):
             add("mps", noise, n, 3, 10)
     else:
         for noise, n in itertools.product(sv_noises, [1, 2, 3, 5, 8, 13, 21, 34, 50]):
